@@ -397,4 +397,46 @@ theorem sampleParities_witness {k n : Nat} {planted : List (List Int)} (hT : ∀
       simp only [RandM.pure_apply]
       exact ⟨by simp, by simp⟩
 
+/-! ### termination of the rejection loop of `sample_variables` -/
+
+theorem rejectVars_terminates {k n : Nat} : ∀ (ds : List Draw) (chosen vs : List Int),
+    (∀ d ∈ ds, ∃ v, d = .randint 1 n v) → vs.Nodup → (∀ v ∈ vs, v ∉ chosen ∧ Draw.randint 1 n v ∈ ds) →
+    k ≤ chosen.length + vs.length → ∃ sel ds', rejectVars k n chosen ds = .ok (sel, ds') := by
+  intro ds
+  induction ds with
+  | nil =>
+    intro chosen vs _ _ hm hk
+    have : vs = [] := by
+      cases vs with
+      | nil => rfl
+      | cons v vs' => exact absurd (hm v (by simp)).2 (by simp)
+    subst this
+    exact ⟨chosen, [], rejectVars_done (by simpa using hk) _⟩
+  | cons d rest ih =>
+    intro chosen vs hds hnd hm hk
+    by_cases hlt : chosen.length < k
+    · obtain ⟨v, rfl⟩ := hds d (by simp)
+      rw [rejectVars_cons, if_pos hlt]
+      simp only [true_and, if_true]
+      apply ih _ (vs.erase v) (fun d hd => hds d (by simp [hd])) (hnd.erase v)
+      · intro w hw
+        obtain ⟨hne, hw'⟩ := (hnd.mem_erase_iff).1 hw
+        obtain ⟨h1, h2⟩ := hm w hw'
+        refine ⟨?_, ?_⟩
+        · split
+          · exact h1
+          · simp only [List.mem_cons, not_or]; exact ⟨hne, h1⟩
+        · rcases List.mem_cons.1 h2 with h2 | h2
+          · simp only [Draw.randint.injEq, true_and] at h2; exact absurd h2 hne
+          · exact h2
+      · by_cases hc : chosen.contains v = true
+        · rw [if_pos hc]
+          have : v ∉ vs := fun hv => (hm v hv).1 (by simpa using hc)
+          rw [List.erase_of_not_mem this]; exact hk
+        · rw [if_neg hc]
+          have := List.length_erase (a := v) (l := vs)
+          simp only [List.length_cons]
+          split at this <;> omega
+    · exact ⟨chosen, d :: rest, rejectVars_done (by omega) _⟩
+
 end Cnfgen.Rand
